@@ -57,11 +57,12 @@ def run_impl(prop, cases, jobs=None):
 
 # ------------------------------------------------------------------ model side
 
-def run_model(prop, cases):
+def run_model(prop, cases, impl_obs=None):
     idx = []
     exprs = []
+    needs = getattr(prop, 'MODEL_NEEDS_IMPL', False)
     for i, c in enumerate(cases):
-        e = prop.model_expr(c)
+        e = prop.model_expr(c, impl_obs[i]) if needs else prop.model_expr(c)
         if e is not None:
             idx.append(i)
             exprs.append(e)
@@ -202,7 +203,7 @@ def run_check(prop, tier, seed, replay=None):
 
 def _evaluate(prop, cases):
     impl_obs = run_impl(prop, cases)
-    model_obs = run_model(prop, cases)
+    model_obs = run_model(prop, cases, impl_obs)
     return impl_obs, model_obs
 
 def _run_check(prop, tier, seed, replay, t0, violations, known_lines):
